@@ -27,6 +27,8 @@ def run(ctx, db, tier):
     ptr_writers(ctx, db)
     charge(ctx, db)
     tracer_first(ctx, db)
+    from . import C02
+    C02.walk(ctx, db, 'C17.tracer-may-free-the-state')
     atomic.check_roles(ctx, db, 'C17.ready-acquires', only_functions={'cocls::future_common::ready', 'cocls::awaiter::resume_chain_set_ready', 'cocls::awaiter::subscribe_check_ready'}, floor=3)
 
 
